@@ -635,6 +635,78 @@ func isDotStarLiteral(re *syntax.Regexp) bool {
 	return true
 }
 
+// isPlainLiteral: a non-empty, case-sensitive literal without a newline.
+func isPlainLiteral(re *syntax.Regexp) bool {
+	if re.Op != syntax.OpLiteral || re.Flags&syntax.FoldCase != 0 || len(re.Rune) == 0 {
+		return false
+	}
+	for _, r := range re.Rune {
+		if r == '\n' {
+			return false
+		}
+	}
+	return true
+}
+
+// isDotStarLiteralSet reports whether the pattern is exactly  .*lit...(lit|lit|...)
+// with a greedy `.` that stops at newlines, plain literals, and a final
+// alternation in which no literal is a prefix of another. Only then is "from
+// the start of the line to the end of the last suffix candidate on it" the
+// match, which is what the suffix-set searcher's matchStartZero shortcut
+// returns without looking at anything else.
+func isDotStarLiteralSet(re *syntax.Regexp) bool {
+	for re.Op == syntax.OpCapture && len(re.Sub) > 0 {
+		re = re.Sub[0]
+	}
+	if re.Op != syntax.OpConcat || len(re.Sub) < 2 {
+		return false
+	}
+	first := re.Sub[0]
+	if first.Op != syntax.OpStar || first.Flags&syntax.NonGreedy != 0 ||
+		len(first.Sub) != 1 || first.Sub[0].Op != syntax.OpAnyCharNotNL {
+		return false
+	}
+	for _, sub := range re.Sub[1 : len(re.Sub)-1] {
+		if !isPlainLiteral(sub) {
+			return false
+		}
+	}
+	last := re.Sub[len(re.Sub)-1]
+	if last.Op == syntax.OpCapture && len(last.Sub) == 1 {
+		last = last.Sub[0]
+	}
+	if isPlainLiteral(last) {
+		return true
+	}
+	if last.Op != syntax.OpAlternate {
+		return false
+	}
+	for _, alt := range last.Sub {
+		if !isPlainLiteral(alt) {
+			return false
+		}
+	}
+	// prefix-free: at any position at most one alternative matches, so the
+	// alternation's priority order cannot matter
+	for i, a := range last.Sub {
+		for j, b := range last.Sub {
+			if i != j && len(a.Rune) <= len(b.Rune) {
+				same := true
+				for k := range a.Rune {
+					if a.Rune[k] != b.Rune[k] {
+						same = false
+						break
+					}
+				}
+				if same {
+					return false
+				}
+			}
+		}
+	}
+	return true
+}
+
 // isWildcardSubexpression checks if a subexpression acts as a "wildcard" that can
 // consume variable-length input. Used by isSafeForReverseSuffix to identify patterns
 // suitable for reverse suffix search.
